@@ -7,9 +7,9 @@ CONSTANTS
   Ports = {53}
   W = 1
   BufInit = 1
-  MaxReg = 4
+  MaxReg = 3
   MaxItems = 3
-  Kinds = {"tcp", "udp"}
+  Kinds = {"tcp"}
   Defect = "none"
 VIEW view
 INVARIANTS TypeOK RegistrationSound DecisionConsistent DispatchBySubnet NoStrayDelivery NoLeak QueuesExact HoldExact NoLostWakeup WriteBackSource
